@@ -20,12 +20,19 @@ from . import thread_sched as ts
 K1_SIG = "sqlite:compare-and-set-not-atomic-across-connections"
 
 
+class Killed(BaseException):
+    """death of the process that owns a connection: the thread unwinds, the connection is closed (SQLite rolls back)"""
+
+
 def make_group(sched, workdir, n=3):
     common.use_repo()
     import sqlalchemy
     from optuna.storages import RDBStorage
     from optuna.storages._rdb import storage as RS
 
+    import logging
+
+    logging.getLogger("sqlalchemy.pool").setLevel(logging.CRITICAL)     # a killed worker's closed connection is expected
     path = tempfile.mkdtemp(prefix="rdbs-", dir=workdir)
     first = sd.fresh_rdb(path, workdir)
     first.remove_session()
@@ -39,9 +46,19 @@ def make_group(sched, workdir, n=3):
 
     def hook(*a, **k):
         w = sched.current_worker()
+        if w is not None and getattr(w, "dying", False):
+            raise Killed()            # a dead process executes nothing more
         if w is not None:
             w.lines += 1
             sched.yield_point(w, "sql")
+            if getattr(w, "kill_at", None) is not None and w.lines >= w.kill_at:
+                w.dying = True
+                w.kill = True
+                try:
+                    a[0].connection.dbapi_connection.close()
+                except Exception:
+                    pass
+                raise Killed()
     for s in storages[:n]:
         sqlalchemy.event.listen(s.engine, "before_cursor_execute", hook)
         sqlalchemy.event.listen(s.engine, "commit", hook)
@@ -130,6 +147,47 @@ def _random_task(args):
         shutil.rmtree(workdir, ignore_errors=True)
 
 
+def _crash_task(args):
+    """worker 1 dies at its i-th SQL statement / commit boundary inside one call; then worker 2 (a survivor) works on"""
+    from . import c03
+
+    ia, mode = args
+    workdir = tempfile.mkdtemp(prefix="c05r-", dir=os.environ.get("VERIF_SCRATCH_BASE", "/var/tmp"))
+    try:
+        A = c03.alphabet(1)[ia]
+        B = [{"a": "create_trial", "s": 1, "tm": {"has": 0}}, {"a": "set_state", "t": 1, "state": "FAIL", "values": sd.NONE_V},
+             {"a": "get_all_trials", "s": 1, "states": ["ALL"], "dc": 1, "as_list": 0}]
+        t = execute([A, []], c03.preempt_at(10 ** 9), workdir)
+        n = t["lines"][0]
+        out = []
+        for i in range(1, n + 1):
+            def factory(sched, i=i):
+                sched.workers[0].kill_at = i
+                return c03.preempt_at(10 ** 9)(sched)
+            t = execute([A, B], factory, workdir)
+            t["replay"] = {"family": "rdb-crash", "kind": "rdb_conns", "a": ia, "i": i}
+            out.append(t)
+        return out
+    finally:
+        shutil.rmtree(workdir, ignore_errors=True)
+
+
+def run_crash_part(ctx):
+    from . import c03
+
+    tasks = [(ia, "all") for ia in range(len(c03.alphabet(1))) if not c03.alphabet(1)[ia][0]["a"].startswith("get_")]
+    traces = []
+    with cf.ProcessPoolExecutor(max_workers=16) as ex:
+        for res in ex.map(_crash_task, tasks):
+            traces += res
+    crashed = sum(1 for t in traces if any(e["e"] == "start" and e["ret"] == {"k": "err", "v": "Crashed"} for e in t["ev"]))
+    ctx.notes["rdb_crash_executions"] = len(traces)
+    ctx.notes["rdb_calls_actually_cut"] = crashed
+    if crashed == 0:
+        raise tlc.MachineryError("vacuous: no SQLite call was cut by a crash")
+    return judge(ctx, traces, "SQLite: a connection dies at every statement/commit boundary of every call, a survivor goes on")
+
+
 def concurrent_cas(t):
     """two workers' set_state calls on the same trial overlap in time (shape of recorded finding K1)"""
     open_calls = {}
@@ -197,7 +255,9 @@ def replay(ctx, data):
     r = data["replay"]
     workdir = tempfile.mkdtemp(prefix="c03r-", dir=os.environ.get("VERIF_SCRATCH_BASE", "/var/tmp"))
     try:
-        if r["family"] == "rdb-pair":
+        if r["family"] == "rdb-crash":
+            t = [x for x in _crash_task((r["a"], "all")) if x["replay"]["i"] == r["i"]][0]
+        elif r["family"] == "rdb-pair":
             t = execute([c03.alphabet(1)[r["a"]], c03.alphabet(2)[r["b"]]], c03.preempt_at(r["i"]), workdir)
         else:
             t = _random_task((r["seed"], r["index"] + 1))[r["index"]]
